@@ -93,6 +93,13 @@ def run_streams(chk, rng, fns, cells, pid):
             chk.violation(bad[0], "corpus case %s: %s" % (cf.name, bad[1]), dict(table_list=c["table_list"], case_line=c["case_line"], impl=list(res.crash) if res.crash else res.raw))
         else:
             chk.cov["traces_validated_against_impl"] += 1
+    # generated tables with capitals and emphasis classes (letter / word / phrase indicators in random combinations)
+    for i in range(30 if quick else 400):
+        r = rng.fork(("emph", i))
+        text, alph = tablegen.gen_emphasis_table(r)
+        tf = work / ("e%d.utb" % i)
+        tf.write_text(text)
+        gen_tables.append(("unicode.dis," + str(tf), alph))
     streams = [(t, None) for t in tables] + gen_tables
     for tl, alphabet in streams:
         r = rng.fork(("cases", tl))
@@ -101,8 +108,10 @@ def run_streams(chk, rng, fns, cells, pid):
             ln = safety.gen_case(r, fns, cells=cells)
             if alphabet is not None and r.chance(0.6):
                 inp = [r.choice(alphabet) for _ in range(r.range(0, 25))]
+                pres = r.choice([0, 12, 15, 13, 1])
                 ln = trans.case_line(r.choice(fns), r.choice([0, 1, 4, 5, 128, 256]), inp,
-                                     r.choice([4 * len(inp) + 8, r.range(0, len(inp) + 2)]), presence=r.choice([0, 12, 15]))
+                                     r.choice([4 * len(inp) + 8, r.range(0, len(inp) + 2), len(inp), 2 * len(inp)]), presence=pres,
+                                     typeform=safety.gen_typeform(r, len(inp)) if pres & 1 and not cells else None)
             lines.append(ln)
         if alphabet is None and not cells:
             for g in safety.gen_poison_probe(r) + safety.gen_poison_probe(r):
